@@ -4,8 +4,9 @@ program-counter machine, the socket thread as timed message deliveries, and a cl
 
 Delivery rule (the one the Python virtual clock implements): when the main thread sleeps for `d`,
 every queued message with time `≤ now + d` is delivered in order, each at its own time (the clock
-never runs backwards); then the clock is set to `now + d`.  A `sleep` made *inside* a handler (the
-`2 * sleep_time` pause of `WaitForUserRhythm.initialise_line`) just advances the clock.
+never runs backwards); then the clock is set to `now + d` unless it is already later.  A `sleep`
+made *inside* a handler (the `2 * sleep_time` pause of `WaitForUserRhythm.initialise_line`) just
+advances the clock.
 -/
 import Wheatley.Model.Bot
 import Wheatley.Model.Rhythm
@@ -148,7 +149,7 @@ def World.sleep (wt : K → K) (endTime : K) (w : World K) (d : K) (events : Lis
       else (w, (t, m) :: rest)
   let (w1, rest) := go w events
   if endTime < wake then (w1, rest, true)
-  else ({ w1 with now := wake }, rest, false)
+  else ({ w1 with now := if w1.now < wake then wake else w1.now }, rest, false)
 
 /-- The rhythm's `wait_for_bell_time`, up to its first sleep.  Returns the sleep duration and the
 program counter to resume at. -/
